@@ -296,7 +296,8 @@ def r2_locks(ctx, res, Tl):
 def handler_fields(ctx, rec, unit):
     """Field chains the result-handler callbacks may touch on the object, with modes."""
     prog, cg = ctx.prog, ctx.cg
-    cbs = cg.param_funcs.get(("result_handler_init", 0), set())
+    # result callbacks (handler thread) and job callbacks (worker threads): both run concurrently with the caller
+    cbs = cg.param_funcs.get(("result_handler_init", 0), set()) | cg.param_funcs.get(("threadpool_dispatch", 3), set())
     eff = {}
     for cb in sorted(cbs):
         k = cg.resolve(unit, cb)
